@@ -13,7 +13,23 @@ def sh(cmd, cwd, env=None, timeout=1800):
     p = subprocess.run(cmd, cwd=cwd, env=e, shell=isinstance(cmd, str), stdout=subprocess.PIPE, stderr=subprocess.STDOUT, text=True, timeout=timeout)
     return p.returncode, p.stdout
 
+# demonstrations that need a particular build to show (taken from the agent's notes.md): extra cargo arguments and
+# whether the verification guard must be ON (True), OFF (False) or is chosen by the default rule (None)
+OVERRIDES = {
+    "C08-5B": (["--release"], None), "C18-5A": (["--release"], None),
+    "C01-6B": (["--features", "p384"], None), "C02-6B": ([], False), "C03-6B": (["--release"], None),
+    "C05-6A": (["--release"], None), "C07-6A": (["--release"], None), "C10-6B": ([], False),
+    "C11-6A": (["--release"], None), "C12-6A": (["--release"], None), "C15-6A": (["--features", "std"], None),
+    "C15-6B": (["--features", "std"], None), "C16-6A": (["--release"], True), "C17-6B": ([], False),
+}
+
+
 def demo_cmd(sid, demo_text, notes):
+    if sid in OVERRIDES:
+        extra, guard = OVERRIDES[sid]
+        if guard is None:
+            guard = "hpke_verif" in demo_text
+        return ["cargo", "test", "--offline", "--test", "seed_demo"] + extra, ({"RUSTFLAGS": "--cfg hpke_verif"} if guard else {})
     env = {}
     if "hpke_verif" in demo_text: env["RUSTFLAGS"] = "--cfg hpke_verif"
     feats = []
